@@ -46,6 +46,7 @@ class Session:
         self.lines = []          # all parsed lines so far
         self.lex_errors = []
         self.ncalls = 0
+        self.undocumented = []      # exceptions outside the documented rejections (outcome "crashed")
 
     # ------------------------------------------------------------------
     def drain(self):
@@ -79,6 +80,15 @@ class Session:
         except REJECTIONS as e:
             new = self.drain()
             return "rejected", e, new, len(self.rec.payloads) - before
+        except Exception as e:
+            # an exception outside the documented rejections: the call still did not succeed, and the
+            # monitors go on judging what it emitted and what it left behind (contract violations of
+            # the harness's own monitors pass through)
+            if type(e).__name__ == "ContractBroken":
+                raise
+            self.undocumented.append(f"{name}: {type(e).__name__}: {e}"[:200])
+            new = self.drain()
+            return "crashed", e, new, len(self.rec.payloads) - before
         new = self.drain()
         return "ok", None, new, len(self.rec.payloads) - before
 
